@@ -24,26 +24,30 @@ ASSUMPTIONS = [
     "configuration only); reference product is the bilinear extension in kv.refops",
     "generic coefficients are elements of kv.ring.Q (exact rational functions over Q); kingdon executes them through the "
     "numeric path of the generated function",
-    "dimensions d<=5 (quick: d<=4 sampled, d<=1 enumerated; thorough: d<=2 enumerated); larger d only sampled",
+    "dimensions d<=8 sampled (d>=6: <=8 stored blades per operand; d=7,8 use the lazily filled sign table), d<=1 (quick) / "
+    "d<=2 (thorough) enumerated",
+    "each case also multiplies a re-ordered storage of the same two elements on the same algebra and then the original again",
     "CPython, fractions, Hypothesis are trusted",
 ]
 EXHAUSTIVE_SUBSPACES = {
     "quick": ["all ordered key-tuple pairs x all signatures for d<=1 (generic coefficients, cse on and off)"],
     "thorough": ["all ordered key-tuple pairs x all signatures for d<=2 (65^2 x 9 + ...; generic coefficients, cse alternating)"],
 }
-REQUIRED_LABELS = {"order:noncanonical": 0.05, "mode:generic": 0.2, "sig:degenerate": 0.03}
+REQUIRED_LABELS = {"order:noncanonical": 0.05, "mode:generic": 0.2, "sig:degenerate": 0.03, "lazy:d>=7": 0.03}
 
 
 def budget(tier):
-    n = int(os.environ.get("KV_EXAMPLES", 0)) or (4000 if tier == "quick" else 60000)
+    n = int(os.environ.get("KV_EXAMPLES", 0)) or (8000 if tier == "quick" else 80000)
     return {"examples": n, "shards": 8 if tier == "quick" else 16, "wall": 80 if tier == "quick" else 900}
 
 
 @st.composite
 def _cases(draw, dmax):
-    cfg = draw(S.configs(0, dmax, custom=0.25, named=True, dweights=[0, 1, 2, 2, 3, 3, 3, 4, 4, 4] + [5, 5] * (dmax >= 5)))
+    cfg = draw(S.configs(0, 8, custom=0.25, named=True, dweights=[0, 1, 2, 2, 3, 3, 3, 4, 4, 4, 6, 7, 8] + [5, 5] * (dmax >= 5)))
     d = len(cfg["sig"])
-    cap = None if d <= 4 else 12
+    if cfg.get("basis") and d > 5 and not cfg.get("named"):
+        cfg["basis"] = None
+    cap = None if d <= 4 else (12 if d == 5 else 8)
     a = draw(S.operand(d, max_len=cap))
     b = draw(S.operand(d, max_len=cap))
     return {"cfg": cfg, "a": a, "b": b, "mode": draw(st.sampled_from(["generic", "generic", "frac"])),
@@ -108,6 +112,21 @@ def evaluate(case):
     if not ok:
         raise Violation("gp-bilinear-extension", "gp", "second call (cached function): " + why,
                         observed=kd.show(got2), expected=kd.show(exp))
+    # the same two elements stored in another key order, on the SAME algebra, then the original order again: each order
+    # is its own generated function and none may disturb the other ("in whatever order")
+    if len(ka) > 1 or len(kb) > 1:
+        ka2, va2 = ka[::-1], va[::-1]
+        kb2, vb2 = (kb[1:] + kb[:1], vb[1:] + vb[:1]) if len(kb) > 1 else (kb, vb)
+        x2, y2 = kd.mk(alg, ka2, va2), kd.mk(alg, kb2, vb2)
+        for what, p, q in (("reordered operands", x2, y2), ("original order after the reordered call", x, y)):
+            try:
+                g = kd.to_dict(p * q, op="gp")
+            except Exception as e:
+                raise Violation("gp-returns", "gp", f"{what}: a*b raised {type(e).__name__}: {e}", exc=type(e).__name__)
+            ok, why = kd.elem_equal(g, exp)
+            if not ok:
+                raise Violation("gp-bilinear-extension", "gp", f"{what} (keys {list(p.keys())} x {list(q.keys())}): " + why,
+                                observed=kd.show(g), expected=kd.show(exp))
     # classification
     contrib = {}
     for i in ka:
@@ -122,6 +141,8 @@ def evaluate(case):
               f"clsA:{case['a']['cls']}"]
     if 0 in ref.sig:
         labels.append("sig:degenerate")
+    if ref.d >= 7:
+        labels.append("lazy:d>=7")
     if not ka or not kb:
         labels.append("operand:empty")
     key = [cfg["sig"], cfg.get("start"), cfg.get("basis"), ka, kb, case["cse"], case["mode"]]
